@@ -52,6 +52,16 @@ func countLeftWhitespace(s string) int {
 	return i
 }
 
+// countLeftSP counts leading SP characters only. Inner lists and parameters,
+// unlike lists and dictionaries, do not allow HTAB as whitespace.
+func countLeftSP(s string) int {
+	i := 0
+	for i < len(s) && isSP(s[i]) {
+		i++
+	}
+	return i
+}
+
 // https://www.rfc-editor.org/rfc/rfc4648#section-8.
 func decOctetHex(ch1, ch2 byte) (ch byte, ok bool) {
 	decBase16 := func(in byte) (out byte, ok bool) {
@@ -131,7 +141,7 @@ func consumeBareInnerList(s string, f func(bareItem, param string)) (consumed, r
 	closed := false
 	for len(rest) != 0 {
 		var bareItem, param string
-		rest = rest[countLeftWhitespace(rest):]
+		rest = rest[countLeftSP(rest):]
 		if len(rest) != 0 && rest[0] == ')' {
 			rest = rest[1:]
 			closed = true
@@ -273,7 +283,7 @@ func consumeParameter(s string, f func(key, val string)) (consumed, rest string,
 			break
 		}
 		rest = rest[1:]
-		rest = rest[countLeftWhitespace(rest):]
+		rest = rest[countLeftSP(rest):]
 		key, rest, ok = consumeKey(rest)
 		if !ok {
 			return "", s, ok
